@@ -202,8 +202,8 @@ func CheckC11(run *Run) {
 			for _, svc := range f.Services {
 				for _, md := range svc.Methods {
 					rt := routes[lowerFirst(md.Name)]
-					if rt == nil || !rt.Body || strings.Contains(rt.Path, "{") {
-						continue
+					if rt == nil || !rt.Body || rt.Verb != "POST" || strings.Contains(rt.Path, "{") || len(svc.Headers) > 0 || len(md.Headers) > 0 {
+						continue // C11 sends bare POST requests: routes demanding headers are C09's subject
 					}
 					m, _ := r.FindMessage(md.In)
 					t := &c11Target{req: r, g: g, svc: svc, md: md, msg: m, target: rt.Path, tracked: map[string]*Field{}}
